@@ -258,7 +258,10 @@ class CallTracer:
         if trace is None:
             return
         elif last_opcode == YIELD_VALUE_OPCODE:
-            trace.add_yield_type(typ)
+            # A coroutine (async def) frame leaves through YIELD_VALUE only when
+            # it suspends on an await; that is not a value the function yielded.
+            if not frame.f_code.co_flags & inspect.CO_COROUTINE:
+                trace.add_yield_type(typ)
         else:
             if last_opcode in (RETURN_VALUE_OPCODE, RETURN_CONST_OPCODE):
                 trace.return_type = typ
